@@ -175,6 +175,16 @@ def r_stream_exact(ctx):
         ctx.ok("R-STREAM-EXACT", f"every assertion group of initialize() is one of the documented groups ({n} group instances)")
 
 
+def r_stream_groups_decided(ctx, skip=()):
+    """R-STREAM-EXACT hands every assertion group of initialize() to the rule that decides it: a property that relies on the
+    classification runs those rules as well (skip: the ones it already lists)"""
+    from rules import tasks as task_rules, buffers, driver
+    for name, rule in (("R-DRAIN", task_rules.r_drain), ("R-HORIZON", task_rules.r_horizon), ("R-WORK-AMOUNT", resources.r_work_amount),
+                       ("R-PAIRWISE", resources.r_pairwise), ("R-BUF-ENCODING", buffers.r_buf_encoding), ("R-WEIGHTED", driver.r_weighted)):
+        if name not in skip:
+            rule(ctx)
+
+
 def r_nothing_left_on_the_stack(ctx):
     """a 'no solution' answer is about the problem only if nothing an earlier call asserted is still on the solver's stack:
     every pushed scope is popped on every exit (R-PUSH-POP), answering methods assert only inside pushed scopes
@@ -203,8 +213,16 @@ RULES = [
     r_nothing_left_on_the_stack,
     r_check_is_fresh,
     r_stream_exact,
+    lambda ctx: r_stream_groups_decided(ctx, skip=("R-WORK-AMOUNT", "R-PAIRWISE", "R-BUF-ENCODING")),
     lambda ctx: __import__("rules.logic", fromlist=["x"]).r_fol_table(ctx),
     # an optional constraint binds only when applied: Implies(applied, body) - anything stronger (an equivalence) removes the
     # schedules that satisfy the body partly while the constraint is not applied (R-APPLIED, shared with C10)
     lambda ctx: __import__("rules.logic", fromlist=["x"]).r_single_route(ctx),
+    lambda ctx: __import__("rules.indicators", fromlist=["x"]).r_own_exact(ctx),
+    # the remaining constraint families are asserted as documented and no tighter: indicator constraints, optional-task rules
+    lambda ctx: __import__("rules.indicators", fromlist=["x"]).r_ind_constraint(ctx),
+    optional.r_opt_rules,
+    # the buffer group of initialize() claimed by R-STREAM-EXACT, and the buffer accesses (registrations, no assertion)
+    lambda ctx: __import__("rules.buffers", fromlist=["x"]).r_buf_encoding(ctx),
+    lambda ctx: __import__("rules.buffers", fromlist=["x"]).r_buf_pairing(ctx),
 ]
